@@ -404,6 +404,28 @@ def w_shapes(idx):
                     out.append((f"is_equal:{'false-positive' if got else 'false-negative'}:{where}:shapes:long-values",
                                 f"is_equal({a},{b}) = {got}, TreeEq = {want}; every string value wrapped in a long common prefix and suffix; state {jdump(e['st'])}",
                                 {"kind": "shapes", "state": e["st"], "a": a, "b": b, "expected": want, "long_values": True}))
+        # mapping values of DIFFERENT types that render alike (2 / "2", True / "True", 0.5 / "0.5"): values are compared as they
+        # are - attribute and extras values are stored as given (only content and tail are coerced to str, so they stay None here)
+        for typed in (G.get("SH_typed") or []):
+            if any(x != 0 for x in e["st"]["content"]) or any(x != 0 for x in e["st"]["tail"]):
+                break
+            w3 = World.build(e["st"], text_of=lambda a, typed=typed: typed.get(a, None if a == 0 else f"text-{a}"))
+            for a in range(1, N + 1):
+                for b in range(1, N + 1):
+                    if a == b:
+                        continue
+                    npairs += 1
+                    try:
+                        got = Node.is_equal(w3.n(a), w3.n(b))
+                    except Exception as exc:  # noqa: BLE001
+                        out.append((f"is_equal:raised:{type(exc).__name__}:shapes:typed-values", repr(exc), {"kind": "shapes", "state": e["st"], "a": a, "b": b, "typed_values": repr(typed)}))
+                        continue
+                    want = (a, b) in eq
+                    if bool(got) != want:
+                        where = first_difference(e["st"], a, b) if not want else "equal"
+                        out.append((f"is_equal:{'false-positive' if got else 'false-negative'}:{where}:shapes:typed-values",
+                                    f"is_equal({a},{b}) = {got}, TreeEq = {want}; mapping values realised as {typed!r}; state {jdump(e['st'])}",
+                                    {"kind": "shapes", "state": e["st"], "a": a, "b": b, "expected": want, "typed_values": repr(typed)}))
     return n, out, npairs
 
 
